@@ -80,7 +80,7 @@ def run(ctx):
     if not can_run:
         common.broken_without_input(ctx, "build", ctx.notes[-1] if ctx.notes else "")
         return
-    k = 5 if ctx.thorough() else 1
+    k = ctx.scale(5)
     rng = ctx.rng
     texts = ["", "main:\n li t0\n li t1, 5\n", ".word 1\n2\n3 $\n li t0, 1\n", "li t0, 5 $ x\nli t1, 6\n", "lw t0, 4 \"abc\nli t1, 1\n",
              ".word 1 'ab\nli t0, 1\n", "fence\n.globl main\n.include \"a.s\"\n.include\n.endmacro\n", "li t0, 1 li t1, 2\n",
